@@ -766,10 +766,19 @@ struct Ad
                         continue;
                     auto& e = c.m_elements[*it];
                     int   p;
-                    if constexpr (ck == CK::mru)
-                        p = pos_in(lst, e.m_mru_position);
+                    auto  fit = [&]() {
+                        if constexpr (ck == CK::mru)
+                            return e.m_mru_position;
+                        else
+                            return e.m_lru_position;
+                    }();
+#ifdef _GLIBCXX_DEBUG
+                    // (debug-mode iterators: a never-assigned one is singular and must not be compared)
+                    if (fit._M_singular())
+                        p = -1;
                     else
-                        p = pos_in(lst, e.m_lru_position);
+#endif
+                        p = pos_in(lst, fit);
                     s << " F" << rn(*it) << "(l" << p << ")";
                 }
             }
